@@ -10,7 +10,7 @@ L == [cpuRows |-> 4, nSegments |-> 5, maxLogSteps |-> 6, maxRC |-> 9,
 Base == [logSteps |-> 3, logTrace |-> 5, nSegments |-> 5, layoutOK |-> TRUE, rcMin |-> 2, rcMax |-> 7, usage |-> <<3, 2, 0>>]
 Copies(n, i) == (2^n.logTrace) \div L.builtins[i].rowRatio
 Simple == {"none", "logSteps+ord2", "logSteps+1", "logTrace+1", "logSteps=max-1,consistent", "logSteps=max,consistent", "segments-1", "segments+1", "layoutCode+1",
-           "rc:min>max", "rc:max=limit", "rc:max=limit+1", "rc:min=-1", "tinyTrace,usage=0", "tinyTrace,usage=1inst"}
+           "rc:min>max", "rc:min=max", "rc:max=limit", "rc:max=limit+1", "rc:min=-1", "tinyTrace,usage=0", "tinyTrace,usage=1inst"}
 Devs == {<<"simple", 0, x>> : x \in Simple}
         \cup {<<"usage", i, u>> : i \in 1..2, u \in {"0", "1inst", "1inst+1cell", "copies", "copies+1", "-1cell", "-1inst"}}
         \cup {<<"usage", 3, u>> : u \in {"0", "1inst"}}
@@ -28,6 +28,7 @@ Apply(dd) ==
     [] d = "segments+1" -> [Base EXCEPT !.nSegments = 6]
     [] d = "layoutCode+1" -> [Base EXCEPT !.layoutOK = FALSE]
     [] d = "rc:min>max" -> [Base EXCEPT !.rcMin = 8]
+    [] d = "rc:min=max" -> [Base EXCEPT !.rcMin = 7]
     [] d = "rc:max=limit" -> [Base EXCEPT !.rcMax = 9]
     [] d = "rc:max=limit+1" -> [Base EXCEPT !.rcMax = 10]
     [] d = "rc:min=-1" -> [Base EXCEPT !.rcMin = 0 - 1 + 0]
